@@ -1,6 +1,8 @@
 (* C17 — the debugger's view of source and symbols matches the assembler's. *)
 From Coq Require Import ZArith.
+From Coq Require Import List.
 From Lace Require Import Word Machine Isa Vm Asm Dbg DbgProofs EvalProofs.
+From Lace Require AsmAccept AsmSpan.
 Open Scope N_scope.
 
 (** `assembly <address>` shows exactly the source slice of the statement (span recorded by the
@@ -20,6 +22,25 @@ Theorem C17_label : forall env d st name off line a,
   resolve_location env d st (MLabel name off) = (Some a, d).
 Proof. exact label_resolves. Qed.
 Print Assumptions C17_label.
+
+(** What that span is: "mnemonic through its last operand".  The parser records, for the statement
+    whose first token is [t], the span from [toffs t] to the end [te2] it has when the statement is
+    parsed ([tlen t] when nothing was read after [t]); and an accepted instruction reads exactly
+    the operands of its shape — no label before it, no comment after it — leaving [te2] at the end
+    of the last operand token. *)
+Theorem C17_span_extent : forall sym line k toks te n s rest te2,
+  parse_instr sym line k (toks, te) n = Ok (s, (rest, te2)) ->
+  rest = skipn (length (AsmAccept.shape k)) toks /\
+  te2 = AsmAccept.last_end (firstn (length (AsmAccept.shape k)) toks) te.
+Proof. exact AsmAccept.parse_instr_consumes. Qed.
+Print Assumptions C17_span_extent.
+
+Theorem C17_span_extent_trap : forall k toks te n s rest te2,
+  parse_trap k (toks, te) n = Ok (s, (rest, te2)) ->
+  rest = skipn (length (AsmAccept.trap_shape k)) toks /\
+  te2 = AsmAccept.last_end (firstn (length (AsmAccept.trap_shape k)) toks) te.
+Proof. exact AsmAccept.parse_trap_consumes. Qed.
+Print Assumptions C17_span_extent_trap.
 
 (** Non-vacuity: the first statement of a file, without operands, keeps its text. *)
 Example C17_nonvacuous :
